@@ -119,6 +119,16 @@ prop('C20', 'fault_enumeration',
      'genuinely reported success)', TOOL_NOTE,
      'TLA+ fault catalogue + TLC enumeration + fault-injection replay + TLC trace validation', 'section 5 C20')
 
+prop('C17', 'model_checking',
+     'EncAssertion.tla models the decryption rounds of AuthnResponse.parse_assertion (keys tried in order, signature of what was '
+     'decrypted checked, then the checks every assertion gets) and the contract: undecryptable content or any inner mutation a '
+     'plain assertion would be rejected for yields no identity (SameChecks), identities only from decrypted and verified content; '
+     'IdP-built responses over sign x sign x advice x self-contained x pefim are searched for markers of the assertion (raw and '
+     'base64) and decrypted with every key of the pool; attacker-built encrypted assertions with nine inner mutations are '
+     'replayed into the SP with first/second/no key matching; the encrypted slice of the C05 scenario space is replayed as the '
+     'relational check', TOOL_NOTE + '; non-self-contained IdP output that the SP cannot read back is a C08 matter (drift note)',
+     'TLA+ scenario spec + TLC + replay (IdP build and SP parse)', 'section 5 C17')
+
 
 def main():
     props = [json.loads(l) for l in open(os.path.join(VERIF, 'properties.jsonl'))]
